@@ -22,6 +22,9 @@ def main():
     elif a.prop in ("C15", "C10", "C18"):
         import check_hub
         check_hub.run_check(a.prop, a.tier)
+    elif a.prop == "C17":
+        import check_mdns
+        check_mdns.run_check(a.prop, a.tier)
     elif a.prop in ("C12", "C13"):
         import check_ws
         check_ws.run_check(a.prop, a.tier)
